@@ -1,7 +1,7 @@
 (* C09 - the COUNTER LEDGER of an asyncfix endpoint across restarts: executable model.
 
    What is modelled (asyncfix/connection.py, journaler.py, session.py), line by line including the
-   defects D11 / D14 / D20 / D22 of DESIGN.md section 7:
+   defects D11 / D14 / D20 of DESIGN.md section 7:
      live counters next_num_in / next_num_out, connection state class, role, _max_seq_num_resend;
      the journal of ONE session as a projection of Fix/Journal.v (stored counters, inbound keys,
      outbound rows; committed / current tables; implicit transaction, commit; the SQL statements of
@@ -273,6 +273,11 @@ Definition process_seqreset (f : frame) : M unit :=
 
 Definition process_logout : M unit := disconnect false.
 
+(* an in-sequence Logout of the peer is counted and journaled before the session is torn down (repair of D22) *)
+Definition count_logout (f : frame) : M unit :=
+  w <- get ;;
+  if f_seq f =? nin w then set_nin (f_seq f + 1) ;;; persist_in (f_seq f) else ret tt.
+
 Definition check_gaps (n : Z) : M bool :=
   w <- get ;;
   if nin w <? n then
@@ -356,7 +361,7 @@ Definition pm_head (f : frame) : M (option bool) :=
     (match f_type f with
      | TLogon => process_logon f
      | TSeqReset => process_seqreset f
-     | TLogout => process_logout
+     | TLogout => count_logout f ;;; process_logout
      | _ => ret tt
      end) ;;;
     w <- get ;;
@@ -365,7 +370,12 @@ Definition pm_head (f : frame) : M (option bool) :=
 
 Definition pm_dispatch (f : frame) (valid : bool) : M unit :=
   match f_type f with
-  | TResend => process_resend f
+  | TResend =>
+      (* try: ... finally: a request that could not be served does not leave the state in RESENDREQ_HANDLING *)
+      r <- catch (process_resend f) ;;
+      w <- get ;;
+      (if cstate_eqb (st w) Handling then set_st Active else ret tt) ;;;
+      match r with inl _ => ret tt | inr e => raise e end
   | TSeqReset | TLogon | THb => ret tt
   | TTest => send_msg (mkF THb 0 false (f_a f) 0)
   | TApp | TLogout =>
